@@ -158,6 +158,8 @@ class Checker:
     def enabled(self, t):
         for g in t["guards"]:
             v = self.val.get(g["name"], True)
+            if isinstance(v, dict) and "by_target" in v:    # the guard's answer depends on the candidate's target
+                v = v["by_target"].get(t["dst"], True)
             if isinstance(v, dict):   # per-provider valuation (C12)
                 vs = [bool(v[p]) for p in self.spec["guards"][g["name"]]["providers"] if p in self.active and p in v]
                 truth = all(vs)
